@@ -487,6 +487,9 @@ func wgFamily(r *rng, nNodes int, nRandom int, seedBase uint64, tinyPerms bool) 
 	if lim > 28 {
 		lim = 28
 	}
+	if nNodes > 48 {
+		lim = 10 // large models: a sample of the rotations
+	}
 	for k := 1; k < lim; k++ {
 		fam = append(fam, namedSched{fmt.Sprintf("rotate-all-%d", k), simrt.Config{Policies: []simrt.Policy{{Mode: "rotate", K: k, Occ: -1}}}})
 		fam = append(fam, namedSched{fmt.Sprintf("rotate-root-%d", k), simrt.Config{Policies: []simrt.Policy{{Mode: "rotate", K: k, Site: rootSite, Occ: 0}}}})
